@@ -30,6 +30,22 @@ func (revIntCmp) Compare(a, b int) int {
 	return 0
 }
 
+// diffIntCmp and memcmpCmp are consistent comparators whose results are not limited to -1/0/+1.
+type diffIntCmp struct{}
+
+func (diffIntCmp) Compare(a, b int) int { return a - b }
+
+type memcmpCmp struct{}
+
+func (memcmpCmp) Compare(a, b []byte) int {
+	for i := 0; i < len(a) && i < len(b); i++ {
+		if a[i] != b[i] {
+			return int(a[i]) - int(b[i])
+		}
+	}
+	return (len(a) - len(b)) * 7
+}
+
 func init() {
 	fw.Register(&fw.Prop{
 		ID: "C16",
@@ -39,7 +55,7 @@ func init() {
 				n = c16PermCases + 100000
 			}
 			return fw.Meta{N: n, Level: "exploration", Chunk: 25, CaseTimeoutS: 120, MinNT: 100,
-				Rule: "cases 0..69 enumerate all 5913 insertion orders of 1..7 distinct keys (exhaustive for that sub-space, each under the int and the reversed-int comparator); " +
+				Rule: "cases 0..69 enumerate all 5913 insertion orders of 1..7 distinct keys (exhaustive for that sub-space, each under the int / difference-valued int and the reversed-int comparator); " +
 					"remaining cases are seeded: odd = skip list with 2..2000 keys in random order, all probe keys and a probe-pair sample for between-iterators incl. absent bounds and lo>hi; " +
 					"even = priority queue over 0..8 ascending inputs of length 0..50 with duplicate keys across inputs. Non-trivial: >=2 keys (skip list) or >=2 non-empty inputs sharing >=1 key (queue); distinct by hash of the insertion order / input lists",
 				MinObs: map[string]int64{"perms_checked": 5913, "between_iterators_checked": 1000, "pq_elements_checked": 1000, "lo_gt_hi_rejected": 50},
@@ -227,6 +243,9 @@ func c16SkipInt(c *fw.Case, keys []int, reversed bool, allPairs bool) {
 	if reversed {
 		cmp = revIntCmp{}
 		name = "int-reversed"
+	} else if (len(keys)+keys[0])%2 == 0 {
+		cmp = diffIntCmp{}
+		name = "int-difference-comparator"
 	}
 	m := skiplist.NewSkipListMap[int, int](cmp)
 	for _, k := range keys {
@@ -373,7 +392,12 @@ func c16PQ(c *fw.Case) {
 			dups++
 		}
 	}
-	q, err := pq.NewPriorityQueue[[]byte, int, int](skiplist.BytesComparator{}, iters)
+	var qcmp skiplist.Comparator[[]byte] = skiplist.BytesComparator{}
+	if c.R.Intn(2) == 0 {
+		qcmp = memcmpCmp{}
+		c.Obs("pq_with_difference_comparator", 1)
+	}
+	q, err := pq.NewPriorityQueue[[]byte, int, int](qcmp, iters)
 	if err != nil {
 		c.Violate("pq/init-error", "NewPriorityQueue: %v", err)
 		return
